@@ -32,6 +32,13 @@ class BE(BaseException):
     pass
 
 
+class FE(Exception):
+    """a *falsy* exception instance (`if exc:` is not `if exc is not None:`)"""
+
+    def __bool__(self):
+        return False
+
+
 class RefAbort(BaseException):
     """The oracle's own abort signal: a direct BaseException subclass, independent of how asynkit
     happens to define SynchronousAbort.  `except SynchronousAbort` handlers of a program are bound to
@@ -41,6 +48,7 @@ class RefAbort(BaseException):
 CV = [contextvars.ContextVar("verif_cv0", default=0), contextvars.ContextVar("verif_cv1", default=0)]
 
 EXC = {
+    "FE": FE, "OOBData": asynkit.OOBData,
     "InvalidState": asyncio.InvalidStateError, "RT.other": RuntimeError, "StopIteration": StopIteration,
     "E1": E1, "E2": E2, "BE": BE, "Cancelled": asyncio.CancelledError, "GenExit": GeneratorExit,
     "SyncAbort": ak_coro.SynchronousAbort, "StopAsync": StopAsyncIteration,
@@ -59,6 +67,8 @@ def cname(e: BaseException) -> str:
         return "E2"
     if t is BE:
         return "BE"
+    if t is FE:
+        return "FE"
     if isinstance(e, (ak_coro.SynchronousAbort, RefAbort)):
         return "SyncAbort"
     if isinstance(e, asyncio.CancelledError):
@@ -99,8 +109,16 @@ def cname(e: BaseException) -> str:
     return "Other"
 
 
-def val(v) -> int:
-    return 0 if v is None else v
+def val(v):
+    if v is None:
+        return 0
+    return v if isinstance(v, int) else "?" + type(v).__name__
+
+
+@types.coroutine
+def gen_coroutine(c):
+    """a generator-based coroutine (`@types.coroutine`) running the native coroutine `c`"""
+    return (yield from c)
 
 
 class Tok:
@@ -109,12 +127,17 @@ class Tok:
     def __init__(self, n):
         self.n = n
 
+    yields = 0          # how many times any token / bare yield suspended (lets an oracle see a suspension
+                        # that CPython swallows inside close())
+
     def __await__(self):
+        Tok.yields += 1
         return (yield ("tok", self.n))
 
 
 @types.coroutine
 def sleep0():
+    Tok.yields += 1
     return (yield)
 
 
@@ -286,7 +309,7 @@ def phase(c) -> str:
 
 # ---- random programs -------------------------------------------------------------------
 
-THROWABLE = ["E1", "E2", "BE", "Cancelled", "GenExit"]
+THROWABLE = ["E1", "E2", "BE", "Cancelled", "GenExit", "E1", "E2", "BE", "Cancelled", "GenExit", "FE", "OOBData"]
 
 
 def gen_prog(rng, depth=0, budget=None, allow_fut=False, catches=None, p_await=0.3, counter=None,
@@ -338,7 +361,7 @@ def gen_prog(rng, depth=0, budget=None, allow_fut=False, catches=None, p_await=0
             break
         elif r < p_await + 0.70:
             out.append(("raise", rng.choice(["E1", "E2", "BE", "Cancelled", "E1", "E2", "InvalidState", "RT.other",
-                                             "StopIteration", "GenExit"])))
+                                             "StopIteration", "GenExit", "OOBData", "FE"])))
             break
         elif ctxvars and r < p_await + 0.85:
             q = rng.random()
